@@ -38,6 +38,21 @@ func init() {
 		}, &slip.CLPkg)
 }
 
+// typeAliases are the type names that are Go aliases of another type. Objects
+// of such a type have the name of the aliased type in their hierarchy.
+var typeAliases = map[string]slip.Symbol{
+	string(slip.ShortFloatSymbol): slip.SingleFloatSymbol,
+	string(slip.ByteSymbol):       slip.OctetSymbol,
+}
+
+// typeName returns the name objects of the named type have in their hierarchy.
+func typeName(sym slip.Symbol) slip.Symbol {
+	if name, has := typeAliases[strings.ToLower(string(sym))]; has {
+		return name
+	}
+	return sym
+}
+
 // Typep represents the typep function.
 type Typep struct {
 	slip.Function
@@ -50,6 +65,7 @@ func (f *Typep) Call(s *slip.Scope, args slip.List, depth int) slip.Object {
 	if !ok {
 		slip.TypePanic(s, depth, "type", args[1], "symbol")
 	}
+	sym = typeName(sym)
 	switch ta := args[0].(type) {
 	case nil:
 		if strings.EqualFold("null", string(sym)) {
